@@ -7,8 +7,18 @@
 //    (stable sorted insertion / insert-before list), in-order walk over left/right == successor walk
 //    from first() == reverse predecessor walk == reference, pred/succ inverse, parent/child agreement,
 //    red-black colouring, height bound, removed hooks all-null.
-// Script:  cfg <cmp|ord> <poolsize> <full|hash> [every]   (first line; state printed/checked after every op,
+// Script:  cfg <cmp|ord|raw> <poolsize> <full|hash> [every [desc mask store]]
+//                                                      (first line; state printed/checked after every op,
 //                                                       or after every `every`-th script line and the last)
+//          desc mask store: STATE of the comparator object handed to the rbtree constructor (DirLess: compares key^mask,
+//          descending if desc) and how the tree object is created: 0 = automatic storage, comparator passed as an lvalue;
+//          1 = automatic storage, comparator passed as a temporary; 2 = zero-filled static storage + placement new;
+//          3 = heap storage that holds a tree with the OPPOSITE comparator state before the placement new (so a
+//          constructor that does not take its argument leaves a visibly wrong comparator).  The oracle checks the order
+//          against the state the harness PASSED; the model driver instantiates `less` with the same state.
+// Element layout: Node has TWO hooks after its payload; the tree under test uses the SECOND one (non-zero offset), a shadow
+// tree with another comparator state uses the first one in lockstep (oracle kinds rb-shadow, rb-api: every navigation
+// result of the public API is compared, as an ELEMENT pointer, with the raw hook field).
 //          i <key> <id>        rbtree::insert(node id with key)
 //          b <beforeid|-> <id> rbtree_order::insert(before, node id)
 //          r <id>              remove(node id)
@@ -29,15 +39,28 @@
 #include "vharness.hpp"
 #include <frg/rbtree.hpp>
 
+#include <cstddef>
+#include <cstring>
+#include <new>
 struct Node {
 	uint64_t key = 0;
 	uint64_t seq = 0;     // insertion sequence number (oracle: stability of equal keys)
 	int id = 0;
 	bool member = false;
-	frg::rbtree_hook hook;
+	frg::rbtree_hook hook0;   // FIRST hook: the shadow tree
+	uint64_t pad = 0x5a5a5a5a5a5a5a5aULL;
+	frg::rbtree_hook hook;    // SECOND hook: the tree under test
 };
-struct Less { bool operator()(const Node &a, const Node &b) const { return a.key < b.key; } };
-using CmpTree = frg::rbtree<Node, &Node::hook, Less>;
+static_assert(offsetof(Node, hook0) != 0 && offsetof(Node, hook) > offsetof(Node, hook0), "hooks after the payload");
+// a STATEFUL comparator: the order depends on the state of the object given to the tree's constructor
+struct DirLess {
+	bool descending = false;
+	uint64_t mask = 0;
+	bool keys(uint64_t a, uint64_t b) const { return descending ? ((b ^ mask) < (a ^ mask)) : ((a ^ mask) < (b ^ mask)); }
+	bool operator()(const Node &a, const Node &b) const { return keys(a.key, b.key); }
+};
+using CmpTree = frg::rbtree<Node, &Node::hook, DirLess>;
+using ShadowTree = frg::rbtree<Node, &Node::hook0, DirLess>;
 using OrdTree = frg::rbtree_order<Node, &Node::hook>;
 
 static std::string ids(void *p) { return p ? std::to_string(static_cast<Node *>(p)->id) : std::string("-"); }
@@ -64,7 +87,7 @@ static void dump(TR &tr, Node *pool, int P, bool hashmode) {
 
 // ---- independent oracle over the real nodes (public navigation API + raw colour)
 template<class TR>
-static void check_tree(TR &tr, Node *pool, int P, const std::vector<int> &ref, bool cmp) {
+static void check_tree(TR &tr, Node *pool, int P, const std::vector<int> &ref, bool cmp, const DirLess &want = DirLess()) {
 	using CT = frg::_redblack::color_type;
 	size_t n = ref.size();
 	std::vector<Node *> ino;
@@ -124,7 +147,8 @@ static void check_tree(TR &tr, Node *pool, int P, const std::vector<int> &ref, b
 	}
 	// comparator order and stability, stated directly on the walk
 	if(cmp) for(size_t i = 0; i + 1 < ino.size(); i++) {
-		if(ino[i + 1]->key < ino[i]->key) { vh::oracle("rb-order", "in-order walk: node %d (key %llu) before node %d (key %llu)", ino[i]->id, (unsigned long long)ino[i]->key, ino[i + 1]->id, (unsigned long long)ino[i + 1]->key); break; }
+		// order w.r.t. the comparator state the harness PASSED to the constructor
+		if(want.keys(ino[i + 1]->key, ino[i]->key)) { vh::oracle("rb-order", "in-order walk: node %d (key %llu) before node %d (key %llu) under the comparator passed to the tree (descending=%d mask=%llx)", ino[i]->id, (unsigned long long)ino[i]->key, ino[i + 1]->id, (unsigned long long)ino[i + 1]->key, (int)want.descending, (unsigned long long)want.mask); break; }
 		if(ino[i + 1]->key == ino[i]->key && ino[i + 1]->seq < ino[i]->seq) { vh::oracle("rb-stable", "equal keys %llu: node %d (inserted later) before node %d", (unsigned long long)ino[i]->key, ino[i]->id, ino[i + 1]->id); break; }
 	}
 	// first() and the successor walk
@@ -158,6 +182,19 @@ static void check_tree(TR &tr, Node *pool, int P, const std::vector<int> &ref, b
 		int lg = 0; while((2ULL << lg) <= (unsigned long long)n + 1) lg++;
 		if(height > 2 * lg) vh::oracle("rb-height", "height %d > 2*log2(%zu+1) = %d", height, n, 2 * lg);
 	}
+	// every navigation result of the public API, as an ELEMENT pointer, against the raw field of the hook the tree was
+	// instantiated with (the second hook of Node, at a non-zero offset)
+	for(int i = 0; i < P; i++) if(pool[i].member) {
+		Node *nd = &pool[i]; auto &h = nd->hook;
+		if(TR::get_parent(nd) != static_cast<Node *>(h.parent) || TR::get_left(nd) != static_cast<Node *>(h.left)
+				|| TR::get_right(nd) != static_cast<Node *>(h.right) || TR::predecessor(nd) != static_cast<Node *>(h.predecessor)
+				|| TR::successor(nd) != static_cast<Node *>(h.successor))
+			vh::oracle("rb-api", "node %d: get_parent/get_left/get_right/predecessor/successor differ from the hook fields", i);
+		for(void *q : {h.parent, h.left, h.right, h.predecessor, h.successor})
+			if(q && (static_cast<Node *>(q) < pool || static_cast<Node *>(q) >= pool + P || static_cast<Node *>(q) != &pool[static_cast<Node *>(q)->id]))
+				vh::oracle("rb-api", "node %d: a link is not an element pointer of the pool", i);
+	}
+	if(tr.get_root() && tr.get_root() != &pool[tr.get_root()->id]) vh::oracle("rb-api", "get_root() is not an element pointer");
 	// removed / never inserted hooks: all five links null
 	for(int i = 0; i < P; i++) if(!pool[i].member) {
 		auto &h = pool[i].hook;
@@ -168,14 +205,17 @@ static void check_tree(TR &tr, Node *pool, int P, const std::vector<int> &ref, b
 }
 
 template<class TR>
-static void run_tree(const vh::Lines &ls, int P, bool hashmode, bool cmp, int every, bool raw = false) {
+static void run_tree(TR &tr, const vh::Lines &ls, int P, bool hashmode, bool cmp, int every, bool raw = false, DirLess want = DirLess()) {
 	std::unique_ptr<Node[]> pool(new Node[P]);
 	for(int i = 0; i < P; i++) pool[i].id = i;
 	std::vector<int> ref;     // reference: ids in the order the property prescribes
+	std::vector<int> ref2;    // the same for the shadow tree (first hook, another comparator state)
+	DirLess want2{!want.descending, want.mask ^ 0x33};
+	ShadowTree shadow(want2);
+	bool use_shadow = cmp && !raw && P <= 64;
 	uint64_t seq = 0;
 	int undo_node = -1; bool undo_left = false;
 	{
-		TR tr;
 		for(size_t li = 1; li < ls.size(); li++) {
 			auto t = vh::split(ls[li]);
 			if(t.empty()) continue;
@@ -186,9 +226,14 @@ static void run_tree(const vh::Lines &ls, int P, bool hashmode, bool cmp, int ev
 				Node &nd = pool[id];
 				nd.key = k; nd.seq = ++seq; nd.member = true;
 				if constexpr(std::is_same_v<TR, CmpTree>) tr.insert(&nd);
-				size_t pos = 0;   // after every element whose key is <= k
-				while(pos < ref.size() && !(k < pool[ref[pos]].key)) pos++;
+				size_t pos = 0;   // after every element that is not greater under the comparator state that was passed
+				while(pos < ref.size() && !want.keys(k, pool[ref[pos]].key)) pos++;
 				ref.insert(ref.begin() + pos, id);
+				if(use_shadow) {
+					shadow.insert(&nd);
+					size_t p2 = 0; while(p2 < ref2.size() && !want2.keys(k, pool[ref2[p2]].key)) p2++;
+					ref2.insert(ref2.begin() + p2, id);
+				}
 			} else if(o == "b" && !cmp && t.size() == 3) {
 				int id = atoi(t[2].c_str());
 				int bid = t[1] == "-" ? -1 : atoi(t[1].c_str());
@@ -204,6 +249,7 @@ static void run_tree(const vh::Lines &ls, int P, bool hashmode, bool cmp, int ev
 				tr.remove(&pool[id]);
 				pool[id].member = false;
 				ref.erase(std::find(ref.begin(), ref.end(), id));
+				if(use_shadow && cmp) { shadow.remove(&pool[id]); ref2.erase(std::find(ref2.begin(), ref2.end(), id)); }
 			} else if(raw && (o == "L" || o == "R") && t.size() == 2) {
 				int id = atoi(t[1].c_str());
 				if(id < 0 || id >= P || !pool[id].member) { printf("skip\n"); continue; }
@@ -223,7 +269,19 @@ static void run_tree(const vh::Lines &ls, int P, bool hashmode, bool cmp, int ev
 			if(raw) { dump(tr, pool.get(), P, hashmode); continue; }
 			if(every <= 1 || li % (size_t)every == 0 || li + 1 == ls.size()) {
 				dump(tr, pool.get(), P, hashmode);
-				check_tree(tr, pool.get(), P, ref, cmp);
+				check_tree(tr, pool.get(), P, ref, cmp, want);
+				if(use_shadow) {
+					// the tree on the FIRST hook of the same elements: successor walk == its own reference sequence
+					size_t i2 = 0; bool ok2 = true;
+					for(Node *cur = shadow.first(); cur; cur = ShadowTree::successor(cur), i2++)
+						if(i2 >= ref2.size() || cur != &pool[ref2[i2]]) { ok2 = false; break; }
+					if(!ok2 || i2 != ref2.size()) vh::oracle("rb-shadow", "tree on the first hook (descending=%d mask=%llx): successor walk leaves its reference sequence at position %zu of %zu", (int)want2.descending, (unsigned long long)want2.mask, i2, ref2.size());
+					for(int i = 0; i < P; i++) if(!pool[i].member && (pool[i].hook0.parent || pool[i].hook0.left || pool[i].hook0.right || pool[i].hook0.predecessor || pool[i].hook0.successor))
+						vh::oracle("rb-shadow", "node %d is not contained but its first hook is not reset", i);
+				} else {
+					for(int i = 0; i < P; i++) if(pool[i].hook0.parent || pool[i].hook0.left || pool[i].hook0.right || pool[i].hook0.predecessor || pool[i].hook0.successor || pool[i].pad != 0x5a5a5a5a5a5a5a5aULL)
+						vh::oracle("rb-api", "node %d: the tree wrote to the hook it was not instantiated with (or to the payload)", i);
+				}
 				// the structure is corrupt: further operations on it may not terminate; the case has failed already
 				if(vh::g_oracle_count > 0) { printf("stopped\n"); return; }
 			}
@@ -246,20 +304,41 @@ static void body(const vh::Lines &ls) {
 	tv.it_value.tv_sec = ls.size() > 500 ? 150 : 3;
 	setitimer(ITIMER_PROF, &tv, nullptr);
 	auto t = vh::split(ls[0]);
-	if((t.size() != 4 && t.size() != 5) || t[0] != "cfg") { printf("badcfg\n"); return; }
-	int every = t.size() == 5 ? atoi(t[4].c_str()) : 1;
+	if((t.size() != 4 && t.size() != 5 && t.size() != 8) || t[0] != "cfg") { printf("badcfg\n"); return; }
+	int every = t.size() >= 5 ? atoi(t[4].c_str()) : 1;
+	DirLess want;
+	int store = 0;
+	if(t.size() == 8) { want.descending = atoi(t[5].c_str()) != 0; want.mask = vh::u64(t[6]); store = atoi(t[7].c_str()); }
 	int P = atoi(t[2].c_str());
 	if(P < 1 || P > 200000) { printf("badcfg\n"); return; }
 	bool hashmode = t[3] == "hash";
 	if(t[1] == "raw") {
 		// no oracle: the script may drive the tree out of the red-black invariant on purpose
-		try { run_tree<CmpTree>(ls, P, hashmode, true, 1, true); }
+		try { CmpTree tr(want); run_tree<CmpTree>(tr, ls, P, hashmode, true, 1, true, want); }
 		catch(vh::AssertStop &) { printf("assert\n"); }
 		return;
 	}
 	try {
-		if(t[1] == "ord") run_tree<OrdTree>(ls, P, hashmode, false, every);
-		else run_tree<CmpTree>(ls, P, hashmode, true, every);
+		if(t[1] == "ord") { OrdTree tr; run_tree<OrdTree>(tr, ls, P, hashmode, false, every); }
+		else if(store == 1) {
+			CmpTree tr(DirLess{want.descending, want.mask});                       // comparator passed as a temporary
+			run_tree<CmpTree>(tr, ls, P, hashmode, true, every, false, want);
+		} else if(store == 2) {
+			alignas(CmpTree) static unsigned char sbuf[sizeof(CmpTree)];            // static storage, all-zero
+			memset(sbuf, 0, sizeof sbuf);
+			CmpTree *tr = new (sbuf) CmpTree(want);
+			run_tree<CmpTree>(*tr, ls, P, hashmode, true, every, false, want);
+		} else if(store == 3) {
+			void *mem = ::operator new(sizeof(CmpTree));                            // heap storage holding the OPPOSITE state
+			new (mem) CmpTree(DirLess{!want.descending, ~want.mask});
+			CmpTree *tr = new (mem) CmpTree(want);
+			try { run_tree<CmpTree>(*tr, ls, P, hashmode, true, every, false, want); } catch(...) { ::operator delete(mem); throw; }
+			::operator delete(mem);
+		} else {
+			DirLess lv = want;                                                      // comparator passed as an lvalue
+			CmpTree tr(lv);
+			run_tree<CmpTree>(tr, ls, P, hashmode, true, every, false, want);
+		}
 	} catch(vh::AssertStop &a) {
 		// every script op is valid (invalid ones are skipped above), so no FRG_ASSERT may fire
 		vh::oracle("rb-assert", "FRG_ASSERT fired on a valid operation: %s", a.where.c_str());
